@@ -24,6 +24,7 @@ var (
 	flagGen      = flag.String("gen", "", "print guard-table rows (Go syntax) for functions whose canonical name contains this string")
 	flagDescribe = flag.Bool("describe", false, "print the registered properties (JSON) for MANIFEST generation")
 	flagInv      = flag.String("inventory", "", "print the determinism inventory of a named region (CCR)")
+	flagDivs     = flag.String("divs", "", "print division and sentinel-panic inventories for comma-separated function-name prefixes")
 	flagAlt      = flag.Bool("altconfig", false, "internal: run the property under the build configuration given by GOOS/GOARCH/-tags and print ALTCONFIG lines")
 )
 
@@ -50,8 +51,34 @@ func main() {
 		r := &Run{P: p, Funcs: map[string]bool{}, Regions: map[string]int{}}
 		reg := r.Region(*flagInv, regionEntries[*flagInv], false)
 		fmt.Println("region", *flagInv, "functions:", r.Regions[*flagInv])
+		if os.Getenv("ZCHECK_PANICS") != "" {
+			for _, h := range r.panicInventory(reg) {
+				fmt.Printf("%q: \"\", // %s:%d\n", h.Fn+"|"+h.What, h.File, h.Line)
+			}
+			return
+		}
 		for _, h := range r.determinismInventory(reg) {
 			fmt.Printf("%q: %q, // %s:%d\n", h.Fn+"|"+h.What, h.Sig, h.File, h.Line)
+		}
+		return
+	}
+	if *flagDivs != "" {
+		p, err := Load(LoadConfig{RepoDir: *flagRepo, Tags: *flagTags})
+		if err != nil {
+			fmt.Fprintln(os.Stderr, err)
+			os.Exit(2)
+		}
+		r := &Run{P: p, Funcs: map[string]bool{}, Regions: map[string]int{}}
+		for _, d := range r.divisionInventory(strings.Split(*flagDivs, ",")) {
+			fmt.Printf("%q: \"\", // %s %s:%d const=%v guarded=%v\n", d.Fn+"|"+d.Divisor, d.Op, d.File, d.Line, d.Const, d.Guarded)
+		}
+		r.SentinelPanics(strings.Split(*flagDivs, ","), nil, "")
+		for _, o := range r.Obls {
+			if o.Status == "violated" {
+				fmt.Printf("SENTINEL %q: \"\", // %s:%d %s\n", o.Func+"|"+strings.SplitN(o.Key, "|", 3)[2], o.File, o.Line, o.Detail[len(o.Detail)-120:])
+			} else {
+				fmt.Println(o.Detail)
+			}
 		}
 		return
 	}
